@@ -67,6 +67,9 @@ class Algebra:
         if f[0] == "fnptr":
             if f[1] in CTOR_FNS and len(args) == 1:
                 return [((), ("agg", CTOR_FNS[f[1]], (args[0],)))]
+            segs = f[1].split("::")
+            if len(segs) >= 2 and segs[-1][:1].isupper() and segs[-2][:1].isupper() and "<" not in segs[-1]:
+                return [((), ("agg", f[1], tuple(args)))]      # tuple-variant constructor used as a function
             return [((), ("call", f[1], tuple(args), f[2] if len(f) > 2 else ()))]
         if f[0] == "closure" and self.depth < 4:
             cb = _closure_body(self.crate, f[1])
@@ -128,6 +131,24 @@ class Algebra:
                     else:
                         for at2, w in self.apply(a[1], []):
                             out.append((at + at2, ("agg", ERR, (w,))))
+                return out
+            if c in (O + "map_or_else", O + "map_or", O + "unwrap_or_else", O + "unwrap_or") and len(a) in (2, 3):
+                # Some(x) => f(x) (or x), None => the default
+                out = []
+                has_f = c in (O + "map_or_else", O + "map_or")
+                lazy = c.endswith("_else")
+                for at, v in self.split(a[0], SOME, NONE, IS_SOME):
+                    if _is_agg(v, SOME):
+                        if has_f:
+                            for at2, w in self.apply(a[2], [v[2][0]]):
+                                out.append((at + at2, w))
+                        else:
+                            out.append((at, v[2][0]))
+                    elif lazy:
+                        for at2, w in self.apply(a[1], []):
+                            out.append((at + at2, w))
+                    else:
+                        out.append((at, a[1]))
                 return out
             if c in ("core::option::Option::<&T>::cloned", "core::option::Option::<&T>::copied") and len(a) == 1:
                 out = []
@@ -274,6 +295,39 @@ class Algebra:
                     if not bad:
                         out.append((frozenset(cur), v))
         return out
+
+
+def expr_cases(ctx, body, node):
+    """case table of one operand / rvalue of `body` (conditions are those introduced by the
+    expression itself, not the path condition of where it stands)"""
+    alg = Algebra(body.crate)
+    s, _ = ctx.sym(body)
+    alg.body, alg.sym = None, s
+    if "k" in node and node["k"] in ("copy", "move", "const"):
+        e = s.operand(node)
+    elif "local" in node:
+        e = s.place(node)
+    else:
+        e = s.rvalue(node)
+    out = []
+    for extra, v in alg.expand(S.strip_transparent(e)):
+        conds = []
+        bad = False
+        for ee, val in extra:
+            if ee[0] == "pc-of":
+                continue
+            a = S.normalise_atom(alg.rewrite(ee), val)
+            f = S.fold_atom(a[0], a[1])
+            if f is False:
+                bad = True
+                break
+            if f is None:
+                conds.append(a)
+        if not bad:
+            row = (sorted(S.atom_str(e2, v2, s) for e2, v2 in conds), S.show(S.strip_transparent(alg.rewrite(v)), s))
+            if row not in out:
+                out.append(row)
+    return out
 
 
 def cases(ctx, body):
